@@ -136,7 +136,9 @@ def mutate(rng, base, family):
         c["curve"] = [[0.1, 0.5], [0.45, 0.52], [0.5, 0.99], [1.0, 0.99]] if rng.random() < 0.5 else [[0.2, 0.3], [0.3, 0.95], [1.0, 0.96]]
         mut["component"] = c["name"]
     elif family == "fuel-spec":
-        mut["fuel"] = [[True, True, False, True], [True, False, False, False], [False, True, False, False], [False, True, True, True]][int(rng.integers(4))]
+        mut["fuel"] = [[True, True, False, True], [True, False, False, False], [False, True, False, False], [False, True, True, True],
+                       [False, False, True, False], [False, False, False, True]][int(rng.integers(6))]
+        mut["falsy"] = bool(rng.random() < 0.4)       # the given factor is 0.0 / an empty list: still "given"
     elif family == "lengths":
         n = inp["n"]
         if n < 2:
@@ -162,9 +164,11 @@ def attempt(case):
     try:
         if fam == "fuel-spec":
             by_user, lhv, wtt, ttw = mut["fuel"]
+            falsy = mut.get("falsy", False)
             Fuel(TypeFuel.DIESEL, FuelOrigin.FOSSIL, FuelSpecifiedBy.USER if by_user else FuelSpecifiedBy.IMO,
-                 lhv_mj_per_g=0.0427 if lhv else None, ghg_emission_factor_well_to_tank_gco2eq_per_mj=14.4 if wtt else None,
-                 ghg_emission_factor_tank_to_wake=[GhgEmissionFactorTankToWake(3.2, 0.0, 0.0, 0.0, None)] if ttw else None)
+                 lhv_mj_per_g=(0.0 if falsy else 0.0427) if lhv else None,
+                 ghg_emission_factor_well_to_tank_gco2eq_per_mj=(0.0 if falsy else 14.4) if wtt else None,
+                 ghg_emission_factor_tank_to_wake=([] if falsy else [GhgEmissionFactorTankToWake(3.2, 0.0, 0.0, 0.0, None)]) if ttw else None)
             return "accepted", True
         plant = plants.Plant.__new__(plants.Plant)
         plant.spec, plant.by_name = spec, {}
